@@ -491,13 +491,41 @@ def native_replay(h, test_src, env):
 
 # --------------------------------------------------------------------------- main
 
+VERUS_UNITS = {
+    # property -> (extractor, generated file, minimum number of verified items (vacuity guard), back end label)
+    "C12": ("extract.py", "bits_gen.rs", 20, "verus / z3 (bit_vector)"),
+    "C13": ("extract_radix.py", "radix_gen.rs", 18, "verus / z3 (loop invariant, nonlinear_arith, bit_vector lemmas)"),
+}
+
+
+def verus_failed_fns(gen, stderr):
+    """Names of the functions of the generated file that contain a reported error location."""
+    try:
+        lines = open(gen).read().split("\n")
+    except OSError:
+        return []
+    names = set()
+    for blk in re.split(r"\n(?=error)", stderr):
+        if not blk.startswith("error"):
+            continue
+        for m in re.finditer(r"--> [^\n:]*%s:(\d+):" % re.escape(os.path.basename(gen)), blk):
+            ln = int(m.group(1))
+            for k in range(min(ln, len(lines)) - 1, -1, -1):
+                fm = re.match(r"\s*(?:pub\s+)?(?:open\s+spec\s+|proof\s+|const\s+)?fn\s+(\w+)", lines[k])
+                if fm:
+                    names.add(fm.group(1))
+                    break
+    return sorted(names)
+
+
 def run_verus(prop):
-    """C12: second, independent solver.  Returns dict(status=ok|violation|undecided, ...)."""
+    """C12: second, independent solver; C13: unbounded loop proof.  Returns dict(status=ok|violation|undecided, ...)."""
+    extractor, gen_name, min_items, label = VERUS_UNITS[prop]
     vdir = os.path.join(CACHE, "verus")
     os.makedirs(vdir, exist_ok=True)
-    gen = os.path.join(vdir, "bits_gen.rs")
+    gen = os.path.join(vdir, gen_name)
     t0 = time.time()
-    ex = subprocess.run([sys.executable, os.path.join(VERIF, "verus", "extract.py"), REPO, gen], capture_output=True, text=True)
+    ex = subprocess.run([sys.executable, os.path.join(VERIF, "verus", extractor), REPO, gen], capture_output=True, text=True)
     if ex.returncode != 0:
         return {"status": "undecided", "why": "verus extraction failed (lost anchor): " + (ex.stderr or ex.stdout)[-400:]}
     try:
@@ -510,16 +538,19 @@ def run_verus(prop):
     except Exception:
         return {"status": "undecided", "why": "cannot parse verus output: " + (p.stderr or out)[-600:]}
     vr = j.get("verification-results", {})
-    res = {"status": "ok", "verified": vr.get("verified", 0), "errors": vr.get("errors", 0), "extraction": ex.stdout.strip(),
-           "cmd": "python3 verus/extract.py %s %s && verus %s --output-json --time" % (REPO, gen, gen),
+    crate = gen_name[:-3] + "::"
+    res = {"status": "ok", "back_end": label, "verified": vr.get("verified", 0), "errors": vr.get("errors", 0),
+           "extraction": ex.stdout.strip(), "generated_file": gen,
+           "cmd": "python3 verus/%s %s %s && verus %s --output-json --time" % (extractor, REPO, gen, gen),
            "wall_s": round(time.time() - t0, 1), "smt_time_ms": (j.get("times-ms", {}) or {}).get("smt", {}),
-           "lemmas": sorted(k.split("::")[-1] for k in (j.get("func-details") or {}).keys() if "lemma_" in k or "fact_" in k)}
+           "lemmas": sorted(k.split("::")[-1] for k in (j.get("func-details") or {}).keys() if "lemma_" in k or "fact_" in k),
+           "functions": sorted(k.split("::")[-1] for k in (j.get("func-details") or {}).keys() if k.startswith(crate))}
     if vr.get("encountered-vir-error") or (not vr.get("success") and not vr.get("errors")):
         res.update(status="undecided", why="verus rejected the extracted text: " + p.stderr[-800:])
     elif vr.get("errors", 0) > 0:
-        failed = sorted(set(re.findall(r"(?:lemma|fact)_\w+", p.stderr)))
+        failed = sorted(set(re.findall(r"(?:lemma|fact)_\w+", p.stderr)) | set(verus_failed_fns(gen, p.stderr)))
         res.update(status="violation", failed=failed, stderr=p.stderr[-3000:])
-    elif vr.get("verified", 0) < 20:
+    elif vr.get("verified", 0) < min_items:
         res.update(status="undecided", why="verus verified only %s items (vacuity guard)" % vr.get("verified"))
     return res
 
@@ -719,15 +750,15 @@ def main(argv):
             r["verdict"] = "known-finding"
 
     verus = None
-    if prop == "C12" and not a.only:
+    if prop in VERUS_UNITS and not a.only:
         verus = run_verus(prop)
-        log("[C12] verus cross-check: %s (%s verified, %s errors)" % (verus.get("status"), verus.get("verified"), verus.get("errors")))
+        log("[%s] verus: %s (%s verified, %s errors)" % (prop, verus.get("status"), verus.get("verified"), verus.get("errors")))
         if verus["status"] == "undecided":
             # The Verus run is a redundant second solver over a mechanically extracted subset.  If the current text
             # of `mod bits` is outside what the extractor / Verus accept (a `let` in a body, a renamed item), the
             # cross-check is skipped and says so; the verdict then rests on the Kani obligations alone.
             verus["status"] = "skipped"
-            log("[C12] verus cross-check skipped: " + verus.get("why", "")[:300])
+            log("[%s] verus unit skipped: %s" % (prop, verus.get("why", "")[:300]))
     return finish(prop, tier, seed, t0, mine, results, undecided, violations, known_hits, hosts, assumptions,
                   all_contracts, runs, no_playback=a.no_playback, verus=verus)
 
@@ -738,9 +769,10 @@ def finish(prop, tier, seed, t0, mine, results, undecided, violations, known_hit
     if verus and verus.get("status") == "violation":
         rdir = os.path.join(VERIF, "replays", prop)
         os.makedirs(rdir, exist_ok=True)
-        path = os.path.join(rdir, "verus_bits.json")
-        json.dump({"property": prop, "back_end": "verus / z3 (bit_vector)", "failed_obligations": verus.get("failed"),
-                   "verifier_output": verus.get("stderr"), "note": "Verus gives no counterexample; see the Kani obligations c12_bits_* for a replayable input"},
+        path = os.path.join(rdir, "verus_%s.json" % VERUS_UNITS[prop][1][:-7])
+        json.dump({"property": prop, "back_end": verus.get("back_end"), "failed_obligations": verus.get("failed"),
+                   "command": verus.get("cmd"), "extraction": verus.get("extraction"),
+                   "verifier_output": verus.get("stderr"), "note": "Verus gives no counterexample (no-failing-input-found); the Kani obligations of this property give a replayable input where one exists within their bounds"},
                   open(path, "w"), indent=1)
         viol_lines.append("VIOLATION property=%s replay=%s no-failing-input-found" % (prop, path))
         log("  failed verus obligation(s): %s" % verus.get("failed"))
@@ -805,6 +837,21 @@ def finish(prop, tier, seed, t0, mine, results, undecided, violations, known_hit
         all_mine = mine
     level = "proof" if not any(h.kind == "bounded" for h in all_mine) and prop != "C02" else "other"
     contracts_here = [c for c in all_contracts]
+    verus_note = ""
+    if verus and verus.get("status") in ("ok", "violation"):
+        v_ok = int(verus.get("verified") or 0)
+        v_all = v_ok + int(verus.get("errors") or 0)
+        verus_note = (" Verus unit (%s): %d of %d items verified, unbounded (loop invariants / bit-vector lemmas), on text "
+                      "extracted mechanically from the real source on this run." % (verus.get("back_end"), v_ok, v_all))
+        if prop == "C13":
+            for f in ("from_js_str_radix::can_not_overflow [verus]", "from_js_str_radix::to_digit [verus]",
+                      "from_js_str_radix u64 accumulation loop [verus, iteration frame rewritten]"):
+                fns.add(f)
+            verus["assumptions"] = [
+                "vstd's specifications of u64::from(u8), usize::from(u8), u8::wrapping_sub, u8::saturating_add, size_of::<u64>() and Vec indexing are trusted",
+                "the iteration frame (`for c in src` over JsStr::iter().map(u8::try_from(..).expect(..))) is replaced by an indexed loop over &Vec<u8>; the u16->u8 conversion and its expect are outside the Verus unit (Kani obligations c13_* cover them up to their bounds)",
+                "`result as f64` (IEEE round-to-nearest of the exact integer) and the f64 accumulation branch are outside the Verus unit",
+                "Verus 0.2026.09.13 / Z3 are trusted; termination is proved (decreases clauses)"]
     cov = {
         "obligations": proof_obl,
         "discharged": proof_dis,
@@ -823,7 +870,7 @@ def finish(prop, tier, seed, t0, mine, results, undecided, violations, known_hit
         "samples": samples or [{"note": "no sample available (run did not reach verification)"}],
         "explanation": ("kernel contracts: %d obligations proved for all inputs (loop-free, full symbolic domain) + %d bounded "
                         "stand-in obligations (bounds listed, never counted as proved). The check decides the listed kernel "
-                        "functions only, not the property's whole-program quantifier." % (proof_dis, b_dis)),
+                        "functions only, not the property's whole-program quantifier." % (proof_dis, b_dis)) + verus_note,
         "undecided": undecided,
         "second_solver_verus": verus,
         "known_findings_hit": known_hits,
